@@ -414,7 +414,7 @@ static void scen_input(char kind, const uint8_t* in, size_t n) {
 }
 
 static void fault_setup(void) {
-  if (strcmp(O.prop, "C06") && strcmp(O.prop, "C02")) vh_die("driver fault: --prop must be C06 (or C02 for the load-only stage)");
+  if (strcmp(O.prop, "C06") && strcmp(O.prop, "C02") && strcmp(O.prop, "C05")) vh_die("driver fault: --prop must be C06 (or C02 / C05 for the load-only stage)");
   LIM = (size_t)O.L;
   ref_selftest();
   ta_install();
